@@ -283,6 +283,29 @@ def sec_compose(ctx, rng, case):
                 ctx.check(tv_rr <= 1e-6, "composition-laws", "C12:repeat-repeat-records",
                           lambda: "records of op.repeat(ids).repeat(ids) differ from the flat program run outer-major (TV %.3g)" % tv_rr,
                           inner_ids=ids_in, outer_ids=ids_out, **wit)
+        # parent_path: every key of the operation (repetition ids included) sits below the given path
+        ppath = [("u",), ("u", "v")][int(rng.integers(2))]
+        pids = ["i", "j"]
+        how_p = int(rng.integers(3))
+        if how_p == 0:
+            pop = cirq.CircuitOperation(body, repetitions=2, repetition_ids=pids, parent_path=ppath)
+        elif how_p == 1:
+            pop = cirq.with_key_path_prefix(op.repeat(2, pids), ppath)
+        else:
+            pop = op.repeat(2, pids).with_key_path(ppath)
+        if 2 * sum(len(st["w"]) for st in steps if st["t"] == "M") <= 10:
+            flat_p = []
+            for i_ in pids:
+                for st in steps:
+                    flat_p.append(dict(st, key=":".join(ppath + (i_, st["key"]))) if st["t"] == "M" else st)
+            want_keys_p = sorted({st["key"] for st in flat_p if st["t"] == "M"})
+            got_keys_p = sorted(cirq.measurement_key_names(pop))
+            ctx.check(got_keys_p == want_keys_p, "composition-laws", "C12:parent-path-keys", "%r vs %r" % (got_keys_p, want_keys_p), parent_path=ppath, how=how_p, **wit)
+            ex_p = _explore_run(cirq.Circuit(pop), ["sv", "dm"][int(rng.integers(2))])
+            if not ex_p.over_budget:
+                tv_p = L.tv_distance(ex_p.distribution(), I.distribution(I.run(P.to_ref(flat_p), dims)))
+                ctx.check(tv_p <= 1e-6, "composition-laws", "C12:parent-path-records",
+                          lambda: "records of an operation with a parent path differ from the flat program (TV %.3g)" % tv_p, parent_path=ppath, how=how_p, **wit)
         pk = op.with_key_path(("top",))
         got = sorted(cirq.measurement_key_names(pk))
         ctx.check(got == ["top:a", "top:b"], "composition-laws", "C12:with_key_path", "%r" % got, **wit)
